@@ -51,6 +51,7 @@ def op_strategy(kind, none_p=True, bulk_empty=True, heavy=True, only=None):
         st.tuples(st.just("dict"), st.lists(st.tuples(key, nets.attr_value).map(list), max_size=3), st.sampled_from(["w", "tag"])),
         st.tuples(st.just("dod"), st.lists(st.tuples(key, a).map(list), max_size=3), st.none()),
     )
+    nm = st.one_of(n, st.tuples(st.just("@"), st.integers(0, 5)).map(list))  # a label, or ['@', j] = j-th member of the op's edge
     ops = [
         (3, "add_node", st.tuples(st.just("add_node"), n_or_none, a).map(list)),
         (2, "add_nodes_from", st.tuples(st.just("add_nodes_from"), st.lists(st.one_of(n, st.tuples(n, a).map(list)), max_size=3), a).map(list)),
@@ -66,13 +67,13 @@ def op_strategy(kind, none_p=True, bulk_empty=True, heavy=True, only=None):
         (2, "add_edges_from", bulk(5)),
         (1, "add_weighted_edges_from", st.tuples(st.just("add_weighted_edges_from"), st.lists(st.tuples(members_of(kind, 1, 3, none_p), st.sampled_from([0.5, 2, 3.0])).map(list), max_size=2), st.sampled_from(["weight", "w"]), a.map(lambda d: {k: v for k, v in d.items() if k != "weight"})).map(list)),
         (2, "set_edge_attributes", setattr_modes(e).map(lambda t: ["set_edge_attributes"] + list(t))),
-        (3, "double_edge_swap", st.tuples(st.just("double_edge_swap"), n, n, e, e).map(list)),
+        (3, "double_edge_swap", st.tuples(st.just("double_edge_swap"), nm, nm, e, e).map(list)),
         (2, "random_edge_shuffle", st.tuples(st.just("random_edge_shuffle"), e, e, st.integers(0, 10**6)).map(list)),
         (1, "random_edge_shuffle", st.tuples(st.just("random_edge_shuffle"), st.none(), st.none(), st.integers(0, 10**6)).map(list)),
         (4, "add_node_to_edge", st.tuples(st.just("add_node_to_edge"), e_or_none, n_or_none).map(list)),
         (3, "remove_edge", st.tuples(st.just("remove_edge"), e).map(list)),
         (2, "remove_edges_from", st.tuples(st.just("remove_edges_from"), st.lists(e, max_size=3)).map(list)),
-        (4, "remove_node_from_edge", st.tuples(st.just("remove_node_from_edge"), e, n, b).map(list)),
+        (4, "remove_node_from_edge", st.tuples(st.just("remove_node_from_edge"), e, nm, b).map(list)),
         (1, "update", st.tuples(st.just("update"), st.one_of(st.none(), st.lists(members_of(kind, 1, 3, False), max_size=2)), st.one_of(st.none(), st.lists(n, max_size=2))).map(list)),
         (1, "set_net_attr", st.tuples(st.just("set_net_attr"), st.sampled_from(["name", "tag"]), nets.attr_value).map(list)),
         (3, "merge_duplicate_edges", st.tuples(st.just("merge_duplicate_edges"), st.sampled_from(["first", "tuple", "new"]), st.sampled_from(["first", "union", "intersection"]), st.sampled_from([None, "mult"])).map(list)),
@@ -140,6 +141,20 @@ def history(draw, max_ops=30, none_p=True, bulk_empty=True, heavy=True, kind=Non
 # interpreter
 
 
+def member_ref(H, e, ref, side=None):
+    """['@', j] -> j-th member (sorted by repr) of edge e (of its tail/head for a DiHypergraph); else the label itself"""
+    if not isinstance(ref, list):
+        return ref
+    try:
+        m = H._edge[e]
+    except Exception:  # noqa: BLE001  (missing edge: any label will do, the call is going to be refused)
+        return 0
+    if isinstance(m, dict):
+        m = m["in"] | m["out"] if side is None else m[side]
+    m = sorted(m, key=repr)
+    return m[ref[1] % len(m)] if m else 0
+
+
 def concretise(H, op):
     """resolve ['#', k] edge references against the current network -> concrete op"""
     name = op[0]
@@ -159,11 +174,14 @@ def concretise(H, op):
             it[0] = r(it[0])
     elif name == "double_edge_swap":
         op[3], op[4] = r(op[3]), r(op[4])
+        op[1], op[2] = member_ref(H, op[3], op[1]), member_ref(H, op[4], op[2])
     elif name == "random_edge_shuffle":
         if op[1] is not None:
             op[1], op[2] = r(op[1]), r(op[2])
     elif name in ("add_node_to_edge", "remove_edge", "remove_node_from_edge"):
         op[1] = r(op[1])
+        if name == "remove_node_from_edge":
+            op[2] = member_ref(H, op[1], op[2])
     elif name == "remove_edges_from":
         op[1] = [r(x) for x in op[1]]
     return op
